@@ -387,8 +387,8 @@ def main():
         exits = '(exit 2) (exit 3)' if order == 'a-first' else '(exit 3) (exit 2)'
         mw = parse_sx(drv.ask(f"(c17.world (origs {L.enc_state(st1)} {L.enc_state(st2)}) (steps (call 0 {op1[0]} {L.enc_call(*sp1)}) "
                               f"(call 1 {op2[0]} {L.enc_call(*sp2)}) (enter 2) (enter 3) (edits 2 {L.enc_edits(e1)[7:-1]}) (edits 3 {L.enc_edits(e2)[7:-1]}) {exits}))"))
-        world = ['err', mw[1]] if mw[0] == 'err' else ['ok', L.dec_state(mw[1]), L.dec_state(mw[2])]
-        run.corr('interleaved:world', case, ['ok', L.meta(ta), L.meta(tb)], world)
+        world = ['err', mw[1]] if mw[0] == 'err' else ['ok', L.dec_state(mw[1]), L.dec_state(mw[2]), [int(x) for x in mw[3][1:]]]
+        run.corr('interleaved:world', case, ['ok', L.meta(ta), L.meta(tb), [len(getattr(t_, '_last_op_queue', ())) for t_ in (ta, tb)]], world)
         bad = L.same_td(ta, ra) or L.same_td(tb, rb)
         if bad:
             run.oracle_fail('ctx_interleaved', case, f'a block interleaved with a block on ANOTHER tensordict does not behave as when it is alone: {bad}',
@@ -418,7 +418,7 @@ def main():
         exits = '(exit 1) (exit 2)' if order == 'a-first' else '(exit 2) (exit 1)'
         mw = parse_sx(drv.ask(f"(c17.world (origs {L.enc_state(st)}) (steps (call 0 {op1[0]} {L.enc_call(*sp1)}) "
                               f"(call 0 {op2[0]} {L.enc_call(*sp2)}) (enter 1) (enter 2) (edits 1 {L.enc_edits(e1)[7:-1]}) (edits 2 {L.enc_edits(e2)[7:-1]}) {exits}))"))
-        world = ['err', mw[1]] if mw[0] == 'err' else ['ok', L.dec_state(mw[1])]
+        world = ['err', mw[1]] if mw[0] == 'err' else ['ok', L.dec_state(mw[1]), [int(x) for x in mw[2][1:]]]
         td = L.build(st)
         before = td.clone()
         try:
@@ -433,7 +433,7 @@ def main():
                     cma.__exit__(None, None, None); cmb.__exit__(None, None, None)
                 else:
                     cmb.__exit__(None, None, None); cma.__exit__(None, None, None)
-            real = ['ok', L.meta(td)]
+            real = ['ok', L.meta(td), [len(getattr(td, '_last_op_queue', ()))]]
         except Exception as e:  # noqa: BLE001
             L.slow_is_infra(e)
             real = ['err', L.err_class(e)]
@@ -449,12 +449,77 @@ def main():
             else:
                 run.oracle_ok('ctx_same_original')
 
+    # ---- HISTORY: a block left by an exception raised in its body, then (the exception caught) a normal block on the same original.
+    # `__exit__` must pop the record `__enter__` pushed (otherwise the next exit of that object runs a stale inverse) and write nothing
+    # back; model: `c17.world` with an `exit-raised` step (Props.C17.aborted_block_then_block); oracle: the aborted block is worth the
+    # plain method call plus the edits, nothing more
+    class _Boom(Exception):
+        pass
+    for i in range(70 if quick else 900):
+        ops_pool = ['transpose', 'permute', 'squeeze', 'unsqueeze', 'flatten', 'unflatten', 'view', 'flatten_keys', 'unflatten_keys', 'lock_', 'unlock_']
+        n1, n2 = rng.choice(ops_pool), rng.choice(ops_pool)
+        st = L.gen_state(rng, for_op=rng.choice([n1, n2]))
+        try:
+            op1 = L.gen_canonical(rng, st, n1); sp1 = rng.choice(L.spellings(op1, st))
+            op2 = L.gen_canonical(rng, st, n2); sp2 = rng.choice(L.spellings(op2, st))
+        except Exception:  # noqa: BLE001
+            continue
+        if (op1[0] == 'squeeze' and op1[1] is None) or (op2[0] == 'squeeze' and op2[1] is None):
+            continue
+        lockish = st[3] or 'lock_' in (n1, n2) or 'unlock_' in (n1, n2)
+        e1 = rng.choice([[], [('value',)]]) if lockish else rng.choice([[], [('value',)], [('add', ('z',))]])
+        e2 = rng.choice([[], [('value',)]]) if lockish else rng.choice([[], [('value',)], [('add', ('w',))]])
+        case = {'aborted_then': True, 'op1': list(op1), 'sp1': [list(sp1[0]), sp1[1]], 'edits1': [list(e) for e in e1], 'op2': list(op2),
+                'sp2': [list(sp2[0]), sp2[1]], 'edits2': [list(e) for e in e2], 'state': L.enc_state(st)}
+        run.case(json.dumps(case, default=str))
+        mw = parse_sx(drv.ask(f"(c17.world (origs {L.enc_state(st)}) (steps (call 0 {op1[0]} {L.enc_call(*sp1)}) (enter 1) (edits 1 {L.enc_edits(e1)[7:-1]}) "
+                              f"(exit-raised 1) (call 0 {op2[0]} {L.enc_call(*sp2)}) (enter 2) (edits 2 {L.enc_edits(e2)[7:-1]}) (exit 2)))"))
+        world = ['err', mw[1]] if mw[0] == 'err' else ['ok', L.dec_state(mw[1]), [int(x) for x in mw[2][1:]]]
+        td, ref = L.build(st), L.build(st)
+        try:
+            with L.time_limit(30.0):
+                try:
+                    with L.apply_spelled(td, op1[0], *sp1) as y:
+                        for j, e in enumerate(e1):
+                            L.do_edit(y, e, j)
+                        raise _Boom()
+                except _Boom:
+                    pass
+                with L.apply_spelled(td, op2[0], *sp2) as y2:
+                    for j, e in enumerate(e2):
+                        L.do_edit(y2, e, j + 7)
+            # (the record queue of the original is part of the model: every record pushed by an `__enter__` has been popped again)
+            real = ['ok', L.meta(td), [len(getattr(td, '_last_op_queue', ()))]]
+        except Exception as e:  # noqa: BLE001
+            L.slow_is_infra(e)
+            real = ['err', L.err_class(e)]
+        run.count('aborted.outcome', real[0] if real[0] == 'ok' else f'err:{real[1]}')
+        run.corr('aborted-then', case, real, world)
+        if real[0] != 'ok':
+            continue
+        try:
+            yr = L.apply_spelled(ref, op1[0], *sp1)          # the plain call, no block
+            for j, e in enumerate(e1):
+                L.do_edit(yr, e, j)
+            with L.apply_spelled(ref, op2[0], *sp2) as y2:
+                for j, e in enumerate(e2):
+                    L.do_edit(y2, e, j + 7)
+        except Exception as e:  # noqa: BLE001
+            L.slow_is_infra(e)
+            run.count('aborted.reference_failed', type(e).__name__)
+            continue
+        bad = L.same_td(td, ref)
+        if bad:
+            run.oracle_fail('ctx_aborted', case, f'after an aborted block and a normal one the original differs from (plain call + edits, then the block): {bad}',
+                            f'aborted:{op1[0]}:{op2[0]}')
+        else:
+            run.oracle_ok('ctx_aborted')
+
     # ---- to_module as a context manager (oracle only): module zoo x inplace x locked x spelling x edit
     import c17_tomodule as TM
     tm_cases = [(k, ip, lk, sp, ed) for k in TM.KINDS for ip in (None, False, True, 'state_dict') for lk in (False, True)
                 for sp in ('pos', 'kw') for ed in ('none', 'inplace', 'forward')]
-    if quick:
-        tm_cases = rng.sample(tm_cases, 90)
+    # (the whole grid in both tiers: 336 blocks, about 3 s)
     for (k, ip, lk, sp, ed) in tm_cases:
         case = {'module': k, 'inplace': ip, 'locked': lk, 'spelling': sp, 'edit': ed}
         run.case(json.dumps(case))
@@ -510,10 +575,11 @@ def main():
             run.oracle_ok("ctx_temp")
 
     # ---- extended domain (oracle only): lazy-stack originals, unlocked / locked through the stack / locked only through the members
-    for i in range(120 if quick else 1200):
-        n1 = rng.choice(["transpose", "permute", "unsqueeze", "flatten", "unflatten", "view", "squeeze", "flatten_keys", "unflatten_keys", "lock_", "unlock_"])
+    # every (op, lock mode) pair is drawn in every run (a defect in one `_reverse_*` x lock-mode path must not depend on the seed)
+    lazy_combos = [(o_, l_) for o_ in ["transpose", "permute", "unsqueeze", "flatten", "unflatten", "view", "squeeze", "flatten_keys", "unflatten_keys", "lock_", "unlock_"]
+                   for l_ in ["no", "stack", "members", "relocked"]] * (3 if quick else 28)
+    for (n1, lock) in lazy_combos:
         st = L.gen_state(rng, rank=rng.choice([1, 2, 3, 3, 4]), for_op=n1 if n1 == "unflatten_keys" else None)
-        lock = rng.choice(["no", "no", "stack", "members", "relocked"])
         lsd = rng.randrange(len(st[0]))          # the stack dim of the lazy original: every position, ranks 1-4
         st = (tuple(max(d, 2) if j == lsd else d for j, d in enumerate(st[0])), (st[1] if rng.random() < 0.5 else None), [k for k in st[2]], lock != "no")
         op1 = L.gen_canonical(rng, st, n1)
@@ -552,6 +618,9 @@ def main():
             continue
         run.count("lazy.outcome", "ok")
         run.count("lazy.lock", lock)
+        # the metadata model is the same for a lazy original: `withBlock` on the state the stack represents
+        ml = parse_sx(drv.ask(model_lines(st, op1[0], sp1[0], sp1[1], edits)))
+        run.corr("with-lazy:" + op1[0], case, ["ok", L.meta(lz)], ["err", ml[1]] if ml[0] == "err" else ["ok", L.dec_state(ml[1])])
         if bool(lz.is_locked) != st[3] and op1[0] not in ():
             run.oracle_fail("ctx_lazy", case, f"lock state of the lazy original changed: is_locked={lz.is_locked}", f"lazy:{op1[0]}:lock-changed")
             continue
@@ -614,6 +683,8 @@ def main():
             run.oracle_fail("ctx_tc", case, f"a valid context-managed call on a tensorclass raised {type(e).__name__}: {str(e)[:140]}", f"tc:{op1[0]}:raises:{type(e).__name__}")
             continue
         run.count("tc.outcome", "ok")
+        mt = parse_sx(drv.ask(model_lines(st, op1[0], sp1[0], sp1[1], edits)))
+        run.corr("with-tc:" + op1[0], case, ["ok", L.meta(tc._tensordict)], ["err", mt[1]] if mt[0] == "err" else ["ok", L.dec_state(mt[1])])
         was = ref.is_locked
         yr = L.apply_spelled(ref, op1[0], *sp1)
         for j, e in enumerate(edits):
